@@ -1016,6 +1016,25 @@ func (x *Exec) step(fr *Frame, in ssa.Instruction) {
 		if x.chClosed(ch) {
 			x.abort("PANIC", "send on closed channel")
 		}
+		if ch.Cap == 0 && x.sched {
+			// unbuffered: a rendezvous — the value is offered, and the sender goes on once a receiver has taken it
+			me := x.cur
+			for len(ch.Buf) > 0 {
+				me.blocked = func() bool { return len(ch.Buf) > 0 && !ch.Closed }
+				x.yield()
+				me.blocked = nil
+				if ch.Closed {
+					x.abort("PANIC", "send on closed channel")
+				}
+			}
+			ch.Buf = append(ch.Buf, x.get(fr, in.X))
+			for len(ch.Buf) > 0 && !ch.Closed {
+				me.blocked = func() bool { return len(ch.Buf) > 0 && !ch.Closed }
+				x.yield()
+				me.blocked = nil
+			}
+			break
+		}
 		for len(ch.Buf) >= ch.Cap {
 			if !x.sched {
 				x.abort("BLOCKED", "send on full channel "+ch.Note)
